@@ -448,7 +448,10 @@ func runClose(c *corr.Ctx) error {
 		"and whether Close returned are compared with the model; at the end the ok/error result of every call. Plus transactional "+
 		"scenarios: a commit that got its timestamp is rejected (too large for one request / commit queue closed), then further "+
 		"NewTransaction + Get + Set + Commit (and a reopen) - every call under a watchdog of 4 s, compared with Model/TxnOracle.v, "+
-		"a call that does not return is the violation. Plus one maintenance scenario: 48 keys x 900 KiB inline values, rotate, flush, "+
+		"a call that does not return is the violation. Plus, each in a child process: write (plain Set at the sentinel version / "+
+		"SetVersionedEntry at 2^62 / at 1000 / a transactional commit), Close, reopen, NewTransaction + Set + Commit, read back, Close; "+
+		"observation = last stage reached and exit status, model = commit_after_open on the stored maximal version (known finding C37-F2 "+
+		"for the sentinel). Plus one maintenance scenario: 48 keys x 900 KiB inline values, rotate, flush, "+
 		"L0 -> L6 ingest, ingest drain (5-6 output tables of <= 8 MiB built concurrently), read back, Close, each under a watchdog. non-trivial = Close or "+
 		"throttle present; distinct by Gallina term")
 	emit := func(d closeDesc) error {
@@ -488,6 +491,10 @@ func runClose(c *corr.Ctx) error {
 			}
 		}
 		return nil
+	}
+	// write, Close, reopen, transactional commit, read back - in a child process (C37-F2)
+	for _, v := range reopenVariants {
+		c.Emit(execReopen(c, v.name, v.maxver))
 	}
 	// concurrent writers whose batches hit the commit worker's byte budget; then Close
 	for i, m := 0, c.Scale(6, 60); i < m && hungCases < 2; i++ {
